@@ -19,7 +19,7 @@ from __future__ import annotations
 
 import ast
 
-from .errors import AnalysisError
+from .errors import AnalysisError, clone
 
 CATCH_ALL = {'Exception', 'BaseException'}
 
@@ -143,6 +143,11 @@ class CFG:
             self._edge(e, self.exit)
         self._dom = None
         self._pdom = None
+        self._facts_cache = {}
+        self._rd_cache = {}
+        a = fn.args
+        self._params = {x.arg for x in a.posonlyargs + a.args + a.kwonlyargs} | \
+            ({a.vararg.arg} if a.vararg else set()) | ({a.kwarg.arg} if a.kwarg else set())
 
     # ------------------------------------------------------------------ construction
     def _new(self, kind, stmt, ctx=None):
@@ -446,12 +451,167 @@ class CFG:
         return out
 
     def facts_at(self, n: Node):
-        """Atomic conditions known to hold when n is evaluated: list of (unparsed expr, polarity)."""
-        facts = []
+        """Atomic conditions known to hold when n is evaluated: Facts (a list of (unparsed expr, polarity)).
+
+        Every test is recorded twice when it mentions local aliases: as written, and with each alias replaced by the pure
+        attribute chain it was bound to (origin_expr) - `x = self.a.b; if x is None` yields both `x is None` and
+        `self.a.b is None`.  Membership tests on the result ignore the operand order of == / !=."""
+        key = n.id
+        cached = self._facts_cache.get(key)
+        if cached is not None:
+            return Facts(cached[0], cached[1])
+        facts = Facts()
         for b in self.nodes:
             if b.kind == 'branch' and b.label in (True, False) and b is not n and self.dominates(b, n):
                 _atoms(b.test, b.label, facts)
+                resolved = self.origin_expr(b, b.test)
+                _atoms(resolved if resolved is not None else b.test, b.label, facts.resolved)
+        self._facts_cache[key] = (list(facts), list(facts.resolved))
         return facts
+
+    # ------------------------------------------------------------------ aliases
+    def _rd(self, name):
+        rd = self._rd_cache.get(name)
+        if rd is None:
+            rd = self.reaching_defs(name)
+            self._rd_cache[name] = rd
+        return rd
+
+    def unique_def(self, n: Node, name: str):
+        """The single plain assignment `name = <expr>` that reaches n on every path (dominates n), else None."""
+        defs = self._rd(name).get(n.id, set())
+        if len(defs) != 1:
+            return None
+        d = next(iter(defs))
+        st = d.stmt
+        if d.kind != 'stmt' or not isinstance(st, (ast.Assign, ast.AnnAssign)) or d is n:
+            return None
+        if isinstance(st, ast.Assign):
+            if len(st.targets) != 1 or not isinstance(st.targets[0], ast.Name):
+                return None
+        elif not isinstance(st.target, ast.Name) or st.value is None:
+            return None
+        if name in self._params or not self.dominates(d, n):
+            return None
+        return d
+
+    def origin_expr(self, n: Node, expr, depth=4):
+        """expr with every local alias of a pure attribute chain replaced by that chain; None when nothing was replaced.
+
+        Only `alias = name(.attr)*` bindings are followed (never calls or subscripts) and only when that binding is the one
+        definition reaching n.  The result says where a value comes from, not when it was read: rules that care about the
+        time of a read must look at the defining statement itself."""
+        local_names = {x.id for x in ast.walk(expr) if isinstance(x, ast.Name) and isinstance(x.ctx, ast.Load)}
+        mapping = {}
+        for name in local_names:
+            d = self.unique_def(n, name)
+            if d is None:
+                continue
+            v = d.stmt.value
+            if not _pure_chain(v):
+                continue
+            if depth > 0:
+                v = self.origin_expr(d, v, depth - 1) or v
+            mapping[name] = v
+        if not mapping:
+            return None
+
+        class R(ast.NodeTransformer):
+            def visit_Name(self, node):  # noqa: N802
+                if isinstance(node.ctx, ast.Load) and node.id in mapping:
+                    return ast.copy_location(clone(mapping[node.id]), node)
+                return node
+        return R().visit(clone(expr))
+
+    def origin_text(self, n: Node, expr) -> str:
+        r = self.origin_expr(n, expr)
+        return ast.unparse(r if r is not None else expr)
+
+    def holder(self, a):
+        """The CFG node that evaluates ast node a."""
+        for n in self.real_nodes():
+            for x in n.walk():
+                if x is a:
+                    return n
+        return None
+
+    def value_cases(self, n: Node, expr, depth=3):
+        """Enumerate what expr can evaluate to at n: list of (Facts under which, leaf expression with aliases resolved).
+
+        Follows conditional expressions, `a or b`, and local names through all their reaching plain assignments (each with
+        the facts that hold at that assignment).  The facts of n itself are included in every case."""
+        base = self.facts_at(n)
+        out = []
+        for conds, leaf in self._cases(n, expr, depth):
+            f = Facts(base, base.resolved)
+            for c in conds:
+                f.add(c)
+            out.append((f, leaf))
+        return out
+
+    def _plain_defs(self, n, name):
+        if name in self._params:
+            return None
+        defs = self._rd(name).get(n.id, set())
+        plain = [d for d in defs if d.kind == 'stmt' and isinstance(d.stmt, ast.Assign) and len(d.stmt.targets) == 1
+                 and isinstance(d.stmt.targets[0], ast.Name) and d is not n]
+        if not defs or len(plain) != len(defs):
+            return None
+        return sorted(plain, key=lambda x: x.id)
+
+    def _cases(self, n, expr, depth):  # noqa: C901
+        # 1. split on local names that have several definitions / a conditional definition: one case per definition, the
+        #    definition substituted everywhere in expr so that tests and values stay correlated
+        if depth > 0:
+            for x in ast.walk(expr):
+                if not (isinstance(x, ast.Name) and isinstance(x.ctx, ast.Load)):
+                    continue
+                defs = self._plain_defs(n, x.id)
+                if defs is None:
+                    continue
+                if len(defs) == 1 and _pure_chain(defs[0].stmt.value) and self.dominates(defs[0], n):
+                    continue  # a plain alias: origin_expr deals with it
+                res = []
+                for d in defs:
+                    val = self.origin_expr(d, d.stmt.value) or d.stmt.value
+                    name = x.id
+
+                    class R(ast.NodeTransformer):
+                        def visit_Name(self, node, name=name, val=val):  # noqa: N802
+                            if isinstance(node.ctx, ast.Load) and node.id == name:
+                                return ast.copy_location(clone(val), node)
+                            return node
+                    e2 = R().visit(clone(expr))
+                    fa = self.facts_at(d)
+                    fd = list(fa) + [y for y in fa.resolved if not list.__contains__(fa, y)]
+                    for c2, leaf in self._cases(n, e2, depth - 1):
+                        res.append((fd + c2, leaf))
+                return res
+        # 2. structure
+        if isinstance(expr, ast.IfExp):
+            const = _const_truth(expr.test)
+            res = []
+            for pol, branch in ((True, expr.body), (False, expr.orelse)):
+                if const is not None and const != pol:
+                    continue
+                conds = []
+                if const is None:
+                    _atoms(expr.test, pol, conds)
+                    r = self.origin_expr(n, expr.test)
+                    if r is not None:
+                        _atoms(r, pol, conds)
+                for c2, leaf in self._cases(n, branch, depth):
+                    res.append((conds + c2, leaf))
+            return res
+        if isinstance(expr, ast.BoolOp) and isinstance(expr.op, ast.Or) and len(expr.values) == 2:
+            a, b = expr.values
+            ca, cb = [], []
+            _atoms(a, True, ca)
+            _atoms(a, False, cb)
+            return [(ca + c2, leaf) for c2, leaf in self._cases(n, a, depth)] + \
+                   [(cb + c2, leaf) for c2, leaf in self._cases(n, b, depth)]
+        r = self.origin_expr(n, expr)
+        return [([], r if r is not None else expr)]
 
     def guarded_by(self, n: Node, expr_text: str, polarity: bool) -> bool:
         return (expr_text, polarity) in self.facts_at(n)
@@ -513,6 +673,56 @@ class CFG:
                 if suffix is None or txt.endswith(suffix):
                     out.append((w, txt))
         return out
+
+
+def _const_truth(e):
+    """Truth value of a constant test (None/True/False/numbers/strings), else None."""
+    if isinstance(e, ast.Constant):
+        return bool(e.value)
+    return None
+
+
+def _pure_chain(e) -> bool:
+    while isinstance(e, ast.Attribute):
+        e = e.value
+    return isinstance(e, ast.Name)
+
+
+def canon_atom(txt: str) -> str:
+    """Canonical text of an atom: re-unparsed, operands of == sorted."""
+    try:
+        e = ast.parse(txt, mode='eval').body
+    except SyntaxError:
+        return txt
+    if isinstance(e, ast.Compare) and len(e.ops) == 1 and isinstance(e.ops[0], ast.Eq):
+        l, r = sorted([ast.unparse(e.left), ast.unparse(e.comparators[0])])
+        return f'{l} == {r}'
+    return ast.unparse(e)
+
+
+class Facts(list):
+    """list of (atom text, polarity) as written; `.resolved` is the same list with local aliases replaced by their origin.
+
+    `in` succeeds for either form and ignores the operand order of ==."""
+
+    def __init__(self, raw=(), resolved=None):
+        super().__init__(raw)
+        self.resolved = list(resolved) if resolved is not None else []
+
+    def _canon(self):
+        return {(canon_atom(t), p) for t, p in list(list.__iter__(self)) + self.resolved}
+
+    def __contains__(self, item):
+        if not (isinstance(item, tuple) and len(item) == 2 and isinstance(item[0], str)):
+            return list.__contains__(self, item)
+        return list.__contains__(self, item) or (canon_atom(item[0]), item[1]) in self._canon()
+
+    def add(self, atom, resolved_atom=None):
+        if not list.__contains__(self, atom):
+            self.append(atom)
+        r = resolved_atom or atom
+        if r not in self.resolved:
+            self.resolved.append(r)
 
 
 def _atoms(test, polarity, out):
